@@ -1,5 +1,5 @@
 """C05 — fields libtins derives (lengths, header lengths, next-protocol tags, padding, checksums, FCS) are correct on the wire."""
-import os, random, re, sys
+import os, random, re, sys, zlib
 from vlib import core, corr
 
 AREA = "C05"
@@ -25,17 +25,24 @@ MANIFEST = dict(
     text="Lean 4 theorems: libtins' little-endian sum_range/do_checksum equal the RFC 1071 big-endian one's-complement sum "
          "(byte-order independence) and every checksum tail (IP, TCP, UDP incl. 0->0xffff, ICMP, ICMPv6, ICMP extensions) "
          "verifies for all buffers <= 65535 bytes; the nibble-table crc32 (table regenerated from the source) equals the "
-         "bitwise IEEE CRC-32; a code-shaped serialisation model of Ethernet/802.1Q/IPv4/IPv6/TCP/UDP/ICMP/Raw stacks "
-         "satisfies an RFC dissector. The same statements are proved over the code-shaped wire models of C01-C04 "
-         "(Wire/Derived: checksums verify in situ, length / offset fields equal what they govern, next-protocol tags name the "
-         "follower, Ethernet pads to 60 with zeros) and, through layer_in_packet, inside the final bytes of whole packets of any "
-         "depth (packet_ip_udp/tcp/icmp, packet_ip6_*, packet_eth). Tied to the code by three-way differential runs (implementation under ASan/UBSan vs "
-         "model vs RFC dissector oracle) on API-built and re-serialised parsed packets, plus libpcap filter predicates.",
+         "bitwise IEEE CRC-32. length_fields: for every stack of the code-shaped serialisation model (EthernetII, 802.1Q/QinQ, "
+         "802.3, LLC, SNAP, PPPoE, MPLS, loopback, SLL, IPv4+options, IPv6+extension chain, AH, ESP, TCP+options, UDP, "
+         "ICMP/ICMPv6 incl. RFC 4884 extensions, RC4 EAPOL, RadioTap +-FCS, RawPDU; any depth, any mix) an independent RFC "
+         "dissector accepts the whole serialisation: every length / header-length field equals the octets it governs, every "
+         "next-protocol tag names the follower, padding is zero and minimal, checksums and the RadioTap FCS verify, set "
+         "values are read back (induction over the stack, one step lemma per class). The same statements are proved over the "
+         "code-shaped wire models of C01-C04 (Wire/Derived: checksums in situ, lengths, tags, Ethernet padding, RadioTap "
+         "it_len / FCS for every option payload, EAPOL and 802.3 lengths) and, through layer_in_packet, inside the final bytes "
+         "of whole packets. Tied to the code by three-way differential runs (implementation under ASan/UBSan vs model vs RFC "
+         "dissector oracle) on API-built and re-serialised parsed packets, libpcap filter predicates and a python/zlib check "
+         "of RadioTap it_len / FCS.",
     note="Trusted: Lean kernel + standard axioms; hand-written models tied by correspondence (harness/c05_wire.cpp); the RFC "
-         "dissector (lean/TinsModel/Checksum/Dissect.lean) and libpcap as oracles; generator coverage bounds what the tie sees; "
-         "little-endian host branch only.",
-    technique="Lean 4 proof (arithmetic mod 65535, GF(2)-linearity of the CRC register) + model/impl correspondence + RFC "
-              "dissector and libpcap oracles",
+         "dissector (lean/TinsModel/Checksum/Dissect.lean), libpcap and zlib as oracles; generator coverage bounds what the "
+         "tie sees; little-endian host branch only. length_fields excludes, as explicit decidable predicates, the regions of "
+         "KF-C05-1/2 (RFC 4884 length without padding) and KF-C05-10/11 (RFC 4884 length > 255 units stored modulo 256) and "
+         "stacks the dissector cannot delimit (a class without a length field of its own inside another layer's padding).",
+    technique="Lean 4 proof (arithmetic mod 65535, GF(2)-linearity of the CRC register, induction over the layer stack against "
+              "the dissector's introduction rules) + model/impl correspondence + RFC dissector, libpcap and zlib oracles",
     design="DESIGN.md §6 C05")
 MANIFEST["note"] += (" Constants and limits of the C++ source that the model restates (translator/gen_limits.py -> Gen/Limits.lean: "
                      "compiled probe + preprocessed function bodies at named anchors) are tied to the model's numerals by the "
@@ -289,8 +296,10 @@ class Gen:
         exts = icmp_exts(rng) if rng.random() < 0.5 else "-"
         head = f"icmp {t} {rng.randrange(16)} 0 0 0 0 0 {lenflag} {exts}"
         # the original datagram: sizes around the RFC 4884 boundaries
-        n = rng.choice([0, 1, 3, 4, 7, 8, 99, 100, 101, 107, 108, 109, 110, 127, 128, 129, 130, 131, 132, rng.randint(0, 300)] + rfc4884_edge())
-        if rng.random() < 0.6:
+        # (1017..1020 octets are the last that fit the 8-bit length field in 32-bit words: KF-C05-10 begins behind them)
+        n = rng.choice([0, 1, 3, 4, 7, 8, 99, 100, 101, 107, 108, 109, 110, 127, 128, 129, 130, 131, 132, rng.randint(0, 300),
+                        rng.choice([1012, 1016, 1017, 1019, 1020])] + rfc4884_edge())
+        if rng.random() < 0.6 and n < 1000:
             inner = [f"ip 0 {rng.randrange(65536)} 0 0 {rng.randrange(256)} 17 {hx(addr4(rng))} {hx(addr4(rng))} {typed(ip_opts(rng))}",
                      f"udp {rng.randrange(65536)} {rng.randrange(65536)}", "raw " + hx(rbytes(rng, max(0, n - 28)))]
         else:
@@ -305,8 +314,9 @@ class Gen:
         t = rng.choice([1, 3])
         lenflag = 1 if rng.random() < 0.5 else 0
         exts = icmp_exts(rng) if rng.random() < 0.5 else "-"
-        n = rng.choice([0, 1, 7, 8, 9, 79, 80, 81, 87, 88, 89, 120, 127, 128, 129, 135, 136, 137, rng.randint(0, 300)] + rfc4884_edge())
-        if rng.random() < 0.6:
+        n = rng.choice([0, 1, 7, 8, 9, 79, 80, 81, 87, 88, 89, 120, 127, 128, 129, 135, 136, 137, rng.randint(0, 300),
+                        rng.choice([2024, 2032, 2033, 2039, 2040])] + rfc4884_edge())
+        if rng.random() < 0.6 and n < 2000:
             inner = [f"ip6 0 0 {rng.randrange(256)} 17 {hx(addr6(rng))} {hx(addr6(rng))} -",
                      f"udp {rng.randrange(65536)} {rng.randrange(65536)}", "raw " + hx(rbytes(rng, max(0, n - 48)))]
         else:
@@ -372,6 +382,10 @@ class Gen:
                 ls += self.l3() if rng.random() < 0.8 else self.raw(80)
             elif q < 0.9:
                 ls.append(f"eapol {rng.randrange(65536)} {hx(rbytes(rng, rng.randint(0, 40)))}")
+                if rng.random() < 0.3:
+                    ls += self.raw(40)          # the EAPOL body length covers what the frame carries behind the key
+            elif q < 0.92:
+                ls.append(f"pppoe 0 {rng.randrange(65536)} {rng.choice([0, 5, rng.randrange(65536)])} -")   # nothing follows: length 0
             else:
                 ls += self.raw(120)
             return ls
@@ -379,16 +393,23 @@ class Gen:
             ls = [f"dot3 {hx(mac(rng))} {hx(mac(rng))}"]
             if rng.random() < 0.6:
                 ls.append(f"snap 3 {rng.choice([0, rng.randrange(2**24)])} {rng.choice([0, rng.randrange(65536)])}")
+                for _ in range(rng.choice([0, 0, 0, 1, 2])):     # SNAP names a VLAN tag (also a stacked one) by 0x8100
+                    ls.append(f"dot1q {rng.randrange(8)} {rng.randrange(2)} {rng.randrange(4096)} {rng.randrange(65536)} 0")
                 ls += self.l3() if rng.random() < 0.7 else self.raw(80)
             else:
                 ls.append(f"llc {rng.randrange(256)} {rng.randrange(256)}")
                 ls += self.raw(80)
             return ls
         if r < 0.83:
-            return [f"loop {rng.choice([0, 2, 10, 26, rng.randrange(2**32)])}"] + (self.l3() if rng.random() < 0.85 else self.raw(80))
+            q = rng.random()
+            inner = self.l3() if q < 0.8 else ([f"llc {rng.randrange(256)} {rng.randrange(256)}"] + self.raw(40)) if q < 0.9 else self.raw(80)
+            return [f"loop {rng.choice([0, 2, 10, 26, rng.randrange(2**32)])}"] + inner
         if r < 0.88:
-            return [f"sll {rng.randrange(5)} {rng.choice([1, 772, rng.randrange(65536)])} {rng.choice([6, 0, 8])} "
-                    f"{hx(rbytes(rng, 8))} {rng.choice([0, rng.randrange(65536)])}"] + (self.l3() if rng.random() < 0.85 else self.raw(80))
+            head = [f"sll {rng.randrange(5)} {rng.choice([1, 772, rng.randrange(65536)])} {rng.choice([6, 0, 8])} "
+                    f"{hx(rbytes(rng, 8))} {rng.choice([0, rng.randrange(65536)])}"]
+            for _ in range(rng.choice([0, 0, 0, 1, 2])):
+                head.append(f"dot1q {rng.randrange(8)} {rng.randrange(2)} {rng.randrange(4096)} {rng.randrange(65536)} 0")
+            return head + (self.l3() if rng.random() < 0.85 else self.raw(80))
         if r < 0.93:
             return [f"radiotap {rng.choice([0, 1, 1])}"] + self.raw(200)
         return self.l3()
@@ -440,6 +461,10 @@ def known_finding_reproducers(rng):
     return [
         [eth, ip4, "icmp 11 0 0 0 0 0 0 1 -", "raw " + hx(rbytes(rng, 5))],                      # KF-C05-1 (known)
         [eth, ip6, "icmp6 3 0 0 0 1 -", "raw " + hx(rbytes(rng, 9))],                              # KF-C05-2 (known)
+        [eth, ip4, "icmp 3 0 0 0 0 0 0 0 -", "raw " + hx(rbytes(rng, 1028))],                      # KF-C05-10 (known)
+        [eth, ip4, "icmp 11 0 0 0 0 0 0 1 2.1." + rbytes(rng, 4).hex(), "raw " + hx(rbytes(rng, 1100))],   # KF-C05-10, extensions
+        [eth, ip6, "icmp6 1 0 0 0 0 -", "raw " + hx(rbytes(rng, 2056))],                           # KF-C05-11 (known)
+        [eth, ip6, "icmp6 3 0 0 0 1 1.1." + rbytes(rng, 4).hex(), "raw " + hx(rbytes(rng, 2100))], # KF-C05-11, extensions
         # regression cases of the fixed findings (a reintroduced defect is reported deterministically)
         [eth, f"ip6 0 0 64 0 {hx(addr6(rng))} {hx(addr6(rng))} 60.{rbytes(rng, 7).hex()},0.{rbytes(rng, 15).hex()}",
          "udp 1 2", "raw 00"],                                                                       # KF-C05-3
@@ -456,7 +481,10 @@ def known_finding_reproducers(rng):
 
 def plain_for_pcap(ls):
     """eth / dot1q* / ip|ip6 ..., eth / pppoe, eth / mpls+, loop / ip|ip6, sll / ip|ip6: stacks with libpcap predicates"""
-    return ls and ls[0].split(" ")[0] in ("eth", "loop", "sll")
+    if not ls or ls[0].split(" ")[0] not in ("eth", "loop", "sll"):
+        return False
+    # libpcap has no `vlan` predicate on DLT_LINUX_SLL
+    return not (ls[0].startswith("sll") and any(l.startswith("dot1q") for l in ls))
 
 
 def gen_packet_ops(rng, n, maxpay, tier):
@@ -486,6 +514,8 @@ def reser_ops(rng, pkt_ops, impl, limit):
     for i in idx[:limit]:
         link = pkt_ops[i].split(" ")[1]
         if link not in ("eth", "ip", "ip6", "loop", "sll", "dot3", "radiotap"):
+            continue
+        if rfc4884_overflow(pkt_ops[i]):        # KF-C05-10 / -11 are reproduced on the API-built packets
             continue
         w = impl[i].split(" ")
         hexs = w[1][len("bytes="):]
@@ -524,6 +554,95 @@ def reser_ops(rng, pkt_ops, impl, limit):
     return out
 
 
+# ------------------------------------------------------------------ RadioTap: crafted headers, and the FCS by zlib
+RT_FIELDS = [(0, 8, 8), (1, 1, 1), (2, 1, 1), (3, 4, 2), (5, 1, 1), (6, 1, 1), (10, 1, 1), (11, 1, 1), (14, 2, 2)]  # bit, size, alignment
+
+
+def craft_radiotap(rng):
+    """a RadioTap header with a random set of fields (TSFT, FLAGS, RATE, CHANNEL, dBm signal / noise, TX power, antenna,
+    RX flags — FLAGS after or without the 8-octet TSFT, at different alignments), FCS flag on or off, around an 802.11
+    frame, with a frame check sequence that is right, wrong or missing: `reser radiotap` parses and serialises it again"""
+    present, body, fcs = 0, bytearray(), rng.random() < 0.6
+    chosen = [f for f in RT_FIELDS if rng.random() < 0.45]
+    if rng.random() < 0.8 and all(f[0] != 1 for f in chosen):
+        chosen.append(RT_FIELDS[1])
+    for bit, size, align in sorted(chosen):
+        present |= 1 << bit
+        while (8 + len(body)) % align:
+            body.append(0)
+        if bit == 1:
+            body.append((0x10 if fcs else 0) | rng.choice([0, 0x02, 0x04]))      # never 0x40 (bad FCS: libtins refuses those)
+        else:
+            body += rbytes(rng, size)
+    has_flags = bool(present & 2)
+    hdr = bytes([0, 0]) + (8 + len(body)).to_bytes(2, "little") + present.to_bytes(4, "little") + bytes(body)
+    kind = rng.random()
+    if kind < 0.35:
+        frame = bytes([0xd4, 0]) + rbytes(rng, 2) + rbytes(rng, 6)                                   # ACK
+    elif kind < 0.6:
+        frame = bytes([0xb4, 0]) + rbytes(rng, 2) + rbytes(rng, 12)                                  # RTS
+    else:
+        frame = bytes([0x08, rng.choice([0, 1, 2])]) + rbytes(rng, 2) + rbytes(rng, 18) + bytes(2) + \
+            bytes([0xaa, 0xaa, 3, 0, 0, 0, 8, 0]) + rbytes(rng, rng.randint(0, 40))              # data + LLC/SNAP
+    out = hdr + frame
+    if has_flags and fcs:
+        good = zlib.crc32(frame).to_bytes(4, "little")
+        out += good if rng.random() < 0.5 else rbytes(rng, 4)                                        # a wrong FCS must be recomputed
+    return "reser radiotap " + out.hex()
+
+
+def radiotap_view(b):
+    """(it_len, FCS flag) read from a RadioTap header by the radiotap.org rules, written independently of libtins and of
+    the Lean dissector: present words chained by bit 31, TSFT aligned to 8, FLAGS right behind it"""
+    if len(b) < 8:
+        return None
+    itlen = int.from_bytes(b[2:4], "little")
+    off, w = 4, int.from_bytes(b[4:8], "little")
+    first = w
+    while w >> 31 & 1 and off + 8 <= len(b):
+        off += 4
+        w = int.from_bytes(b[off:off + 4], "little")
+    off += 4
+    if not first >> 1 & 1:
+        return itlen, False
+    if first & 1:
+        off = (off + 7) // 8 * 8 + 8
+    return itlen, bool(off < len(b) and b[off] & 0x10)
+
+
+def radiotap_fcs_check(chk, exe, ops):
+    """independent check of the RadioTap derived fields on the implementation's own output: it_len is where the 802.11
+    frame starts, and with the FCS flag the last four octets are zlib's CRC-32 of the frame (little-endian), without it
+    nothing follows the frame"""
+    ops = [o for o in ops if o.startswith("pkt radiotap ") or o.startswith("reser radiotap ")]
+    impl, _ = core.run_harness_lines(exe, (), ops, CASE_START)
+    n, reported = 0, corr.collections.Counter()
+    for o, r in zip(ops, impl):
+        m = re.match(r"ok bytes=([0-9a-f]+) L=(\S+)", r)
+        if not m:
+            continue
+        b = bytes.fromhex(m.group(1))
+        layers = [x.split(":") for x in m.group(2).split(";")]
+        v = radiotap_view(b)
+        hdr, trl = int(layers[0][1]), int(layers[0][2])
+        inner = sum(int(h) + int(t) for _, h, t in layers[1:])
+        bad = None
+        if v is None or v[0] != hdr or v[0] > len(b):
+            bad = f"radiotap.it_len it_len={v and v[0]} header_size={hdr}"
+        elif v[1] != (trl == 4) or len(b) != hdr + inner + trl:
+            bad = f"radiotap.fcs-flag flag={v[1]} trailer={trl} total={len(b)}"
+        elif v[1]:
+            frame = b[hdr:len(b) - 4]
+            if int.from_bytes(b[-4:], "little") != zlib.crc32(frame):
+                bad = f"radiotap.fcs zlib={zlib.crc32(frame):08x} got={int.from_bytes(b[-4:], 'little'):08x}"
+        n += 1
+        if bad and reported[bad.split(" ")[0]] < 2:       # two replays per clause are enough
+            reported[bad.split(" ")[0]] += 1
+            chk.violation("implementation violates the spec oracle [C05]: python/zlib " + bad, [o, "# impl:  " + r],
+                          signature={"kind": "spec", "clause": bad.split(" ")[0], "op": o.split(" ")[0], "oracle": "zlib"})
+    return n
+
+
 # ------------------------------------------------------------------ classification / signatures
 def stack_of(op):
     w = op.split(" ", 1)
@@ -548,6 +667,47 @@ def classify(op, impl):
     return k
 
 
+def approx_size(layers):
+    """size of a stack of simple layers as libtins serialises it (None when a layer is not one of the simple kinds)"""
+    total = 0
+    for l in layers:
+        w = l.split(" ")
+        k = w[0]
+        if k == "raw":
+            total += 0 if w[1] == "-" else len(w[1]) // 2
+        elif k == "udp":
+            total += 8
+        elif k == "ip" and w[9] == "-":
+            total += 20
+        elif k == "ip6" and w[7] == "-":
+            total += 40
+        elif k == "tcp" and w[8] == "-":
+            total += 20
+        else:
+            return None
+    return total
+
+
+def rfc4884_overflow(op):
+    """does the stack hold an extensible ICMP / ICMPv6 message whose original datagram needs more than 255 length units
+    (the minimal input condition of KF-C05-10 / KF-C05-11)"""
+    w = op.split(" ", 1)
+    if len(w) < 2 or w[0] not in ("pkt", "pcap"):
+        return ""
+    ls = [x.strip() for x in w[1].split("|")]
+    for i, l in enumerate(ls):
+        f = l.split(" ")
+        if f[0] == "icmp" and f[1] in ("3", "11", "12"):
+            n = approx_size(ls[i + 1:])
+            if n is not None and ls[i + 1:] and (n + 3) // 4 * 4 >= 1024:
+                return "icmp"
+        if f[0] == "icmp6" and f[1] in ("1", "3"):
+            n = approx_size(ls[i + 1:])
+            if n is not None and ls[i + 1:] and (n + 7) // 8 * 8 >= 2048:
+                return "icmp6"
+    return ""
+
+
 def sig_of(kind, detail, case):
     op = case[-1] if case else ""
     clause = ""
@@ -565,6 +725,15 @@ def sig_of(kind, detail, case):
             sig["rfc4884_unpadded"] = bool(have % unit != 0 and ln * unit == (have + unit - 1) // unit * unit)
     if kind == "diff":
         sig["stack"] = stack_of(op)
+    if kind == "spec":
+        sig["rfc4884_overflow"] = rfc4884_overflow(op)
+        m = re.search(r"(icmp6?)\.rfc4884-length length=(\d+) have=(\d+)", detail)
+        if m and not sig["rfc4884_overflow"]:
+            # a parsed packet serialised again: the stored length is the padded octet count in units, modulo 256
+            unit = 4 if m.group(1) == "icmp" else 8
+            units = (int(m.group(3)) + unit - 1) // unit
+            if units >= 256 and int(m.group(2)) == units % 256:
+                sig["rfc4884_overflow"] = m.group(1)
     return sig
 
 
@@ -615,8 +784,11 @@ def run(chk):
     pk = [o for o in pops if o.startswith("pkt ")]
     impl, _ = core.run_harness_lines(exe, (), pk, CASE_START)
     rops = reser_ops(rng, pk, impl, 2500 if quick else 30000)
+    rt_rng = random.Random(chk.seed * 7919 + 5)          # private stream: does not shift the other generators
+    rops += [craft_radiotap(rt_rng) for _ in range(300 if quick else 6000)]
     stats += corr.correspond(chk, AREA, exe, rops, case_start=CASE_START, classify=classify, sig_of=sig_of, max_reports=12,
                              model=False, nontrivial=nontrivial)
+    chk.extra["radiotap_zlib_checked"] = radiotap_fcs_check(chk, exe, pops + rops)
     for p in problems:
         found = stats.get("spec", 0) + stats.get("fault", 0)
         if not found:
@@ -624,8 +796,10 @@ def run(chk):
     chk.cov["rule"] = ("ops = byte strings for sum_range/do_checksum/crc32/pseudo headers; layer stacks built through the API "
                        "(Ethernet, 802.1Q/QinQ, IPv4+options, IPv6+extension chain, TCP+options, UDP, ICMP/ICMPv6 incl. RFC 4884 "
                        "extensions, PPPoE, MPLS, 802.3/LLC/SNAP, loopback, SLL, AH, ESP, EAPOL, RadioTap) incl. boundary frames "
-                       "(44..48 octet payloads), UDP datagrams crafted to checksum 0, original-datagram sizes around 128; "
-                       "re-serialised parsed packets with damaged checksums / bit flips; distinct_nontrivial = distinct ops")
+                       "(44..48 octet payloads), UDP datagrams crafted to checksum 0, original-datagram sizes around 128 and "
+                       "around the 8-bit limit of the RFC 4884 length (1017..1020 / 2033..2040 octets); "
+                       "re-serialised parsed packets with damaged checksums / bit flips; crafted RadioTap headers (random "
+                       "field sets, FCS right / wrong / absent); distinct_nontrivial = distinct ops")
     chk.assumptions += [
         "little-endian host (models follow TINS_IS_LITTLE_ENDIAN); big-endian branches not modelled",
         "size() == total_sz in the checksum tails (a C02 fact; observed by correspondence of the serialised bytes)",
@@ -633,9 +807,14 @@ def run(chk):
         "TCP/UDP/ICMPv6 not directly inside IPv4/IPv6 (e.g. behind AH) get no checksum: excluded by the property text",
         "802.3 (Dot3) frames are not padded by libtins; the 60-octet rule is checked for EthernetII only (property anchor)",
         "libpcap predicates only for eth/802.1Q*/IP(v6) stacks with fragment offset 0 and no IPv6 extension headers",
+        "SNAP / SLL name a VLAN tag by 0x8100 also when a second tag follows (0x88A8 is derived by EthernetII only); the "
+        "EAPOL body length covers the stack carried behind the key; an AH ICV is a whole number of 32-bit words",
+        "the RFC 4884 length octet is only switched on (use_length_field) on the extensible message types; elsewhere it is "
+        "part of the identifier the user set",
     ]
     chk.trusted += ["correspondence harness harness/c05_wire.cpp + generators in checks/C05.py",
-                    "RFC dissector lean/TinsModel/Checksum/Dissect.lean (oracle), libpcap pcap_compile/pcap_offline_filter (oracle)",
+                    "RFC dissector lean/TinsModel/Checksum/Dissect.lean (oracle), libpcap pcap_compile/pcap_offline_filter (oracle), "
+                    "python zlib.crc32 + radiotap_view in checks/C05.py (oracle for RadioTap it_len / FCS)",
                     "translator/gen_crc.py (CRC table extraction)",
                     "g++ 12 / ASan+UBSan build of the repo's working tree"]
     chk.extra["modelled_not_proved"] = MODELLED_NOT_PROVED
@@ -643,18 +822,22 @@ def run(chk):
 
 
 MODELLED_NOT_PROVED = [
-    "acceptance of the whole serialisation by Dissect.walk for arbitrary stacks (length_fields_outside_known_findings is a "
-    "stated def): proved are the per-layer field theorems, their validity at any depth (layer_in_situ) and the IPv4 bundle "
-    "(length_fields_partial)",
-    "PPPoE / MPLS / SNAP / SLL / loopback / AH tag and length assignments, the IPv6 extension chain, the RFC 4884 layout with "
-    "extensions, ICMPv6 checksum inside serialised stacks: model + correspondence + oracle only (the checksum tails themselves "
-    "are proved for all buffers)",
-    "RadioTap header (it_len, FCS placement), EAPOL, LLC: harness + oracle only, no model",
+    "stacks outside `delimited` (Checksum/Walk/Defs.lean): a class without a length field of its own (EthernetII, padded "
+    "802.1Q, ICMP, ICMPv6, 802.3, RadioTap, TCP under a pseudo header) inside another layer's zero padding, RFC 4884 "
+    "extensions without an original datagram or on a message type that is not extensible, PPPoE session packets with tags / "
+    "discovery packets with a payload, a top-level MPLS label: the RFC dissector cannot delimit them (not generated either)",
+    "the regions of the known findings KF-C05-1/2 (rfc4884Unpadded) and KF-C05-10/11 (rfc4884Overflow): refuted on a witness "
+    "each (length_fields_full_fails, length_fields_outside_unpadded_fails)",
+    "RadioTap objects other than the default-constructed one in the C05 serialisation model: the wire model covers every "
+    "option payload (wire_radiotap_it_len / wire_radiotap_fcs); crafted headers are tied by `reser radiotap` + oracle + zlib",
+    "re-serialised parsed packets (`reser`): RFC dissector in non-strict mode + zlib as oracles; the theorems over them are "
+    "the wire-model ones (Wire/Derived, packet_*), not length_fields",
+    "LLC frames other than LLC(dsap, ssap) in information format (supervisory / unnumbered formats, information fields)",
 ]
 # layer kinds of Serialize.lean (the Lean model answers `unmodelled` for option lists whose size/write libtins computes
 # inconsistently — C02's findings — and those cases are then compared against the oracle only)
 MODELLED_KINDS = {"eth", "dot1q", "ip", "ip6", "tcp", "udp", "icmp", "icmp6", "raw", "pppoe", "mpls", "dot3", "snap",
-                  "loop", "sll", "ah", "esp"}
+                  "loop", "sll", "ah", "esp", "llc", "eapol", "radiotap"}
 
 
 def is_modelled(op):
